@@ -255,6 +255,10 @@ def gen_prog(rng, flavor):
             u0 = rng.choice(sorted(tab))
         if flavor == 'unit-on-unitless' and i == 0:
             u0 = None
+        if flavor == 'custom-unit' and i == 0:
+            dt, kw, sfx = 'float', 'float', ['']
+            cu = '[' + prog['units'][0]['name'] + ']'
+            u0 = cu if rng.random() < 0.5 else rng.choice(sorted(family_of(cu, tab)))
         nd = {'path': path, 'dt': dt, 'sfx': sfx, 'kw': kw, 'u0': u0, 'shape': None}
         if flavor == 'array-mod' and i == 0:
             nd['shape'] = [rng.randint(2, 4)]
@@ -283,6 +287,9 @@ def gen_prog(rng, flavor):
                 if nd['dt'] == 'int':      # non-demand: only conversions with an integral result for int nodes
                     fam = [u for u in fam if (tab[u][0] / tab[nd['u0']][0]).denominator == 1]
                 st['unit'] = nd['u0'] if rng.random() < 0.25 else rng.choice(fam)
+                custom = [u for u in fam if u.startswith('[')]
+                if flavor == 'custom-unit' and custom and rng.random() < 0.5:
+                    st['unit'] = custom[0]
             seq.append(st)
         seqs.append(seq)
     # flavor-specific edits on node 0
